@@ -12,6 +12,11 @@ import (
 	"gtsverif/engines/traps"
 )
 
+// stateless lists the properties about library behaviour: each of them is stated for every history of
+// calls, so each depends on the library keeping no state between calls (rule STATELESS).
+var stateless = map[string]bool{"C01": true, "C02": true, "C03": true, "C04": true, "C05": true, "C06": true, "C07": true, "C08": true,
+	"C09": true, "C10": true, "C11": true, "C12": true, "C16": true, "C17": true, "C18": true, "C19": true}
+
 func init() {
 	register("C18", false, func(p *core.Prog, r *core.Report, tier string) { tables.C18(p, r) })
 	register("C01", false, func(p *core.Prog, r *core.Report, tier string) {
@@ -122,3 +127,5 @@ func init() {
 		r.NotDecided = append(r.NotDecided, "that a cut feature is restored to its original location", "idempotence", "which abutting fragments Push merges (partial3 meets partial5)", "that the residues covered by each class are unchanged")
 	})
 }
+
+
